@@ -23,10 +23,11 @@ def profiles(nmax, dmax, nmin=1):
             yield ds
 
 
-def build(macro, depths, flavour=None, handler=None, lets=(), rich=False, readers=(), hpos=None, wrap=False, init_ev=False, gated=None):
+def build(macro, depths, flavour=None, handler=None, lets=(), rich=False, readers=(), hpos=None, wrap=False, init_ev=False, gated=None, failop=None):
     """lets: iterable of (branch, is_mut); readers: iterable of (reader_branch, step>=1) where the capture of
     that branch-step snapshots every visible name; rich: every step >= 1 carries a capture, an error-side
-    callback and a non-closure operand (C06); wrap: every step >= 1 is opened by a deferred wrapper
+    callback and a non-closure operand (C06); failop (Option flavour, sync): how a step fails — None (`=>` and_then) | "filter"
+    (`?>`) | "zip" (`>^>`) | "flatten" (`|> .. ^^>`): operators that are also Option methods producing None; wrap: every step >= 1 is opened by a deferred wrapper
     (`~=> >>> -> f <<<`; non-try sync programs then carry Option values and use `~|> >>>`)."""
     is_try = macro in dsl.TRY
     is_async = macro in dsl.ASYNC
@@ -105,6 +106,20 @@ def build(macro, depths, flavour=None, handler=None, lets=(), rich=False, reader
                     items.append(Op("->", [O("lgf(\"%d.%d.o\")" % (b, k))]))
                 else:
                     items.append(Op("=>", [main], deferred=True))
+            elif failop:
+                fs = slot(b, k)
+                if failop == "filter":
+                    items.append(Op("?>", [O("|v: &i32| { ev(\"%d.%d.f\", v); act(%d) == 0 }" % (b, k, fs))], deferred=True))
+                    items.append(Op("|>", [O("|v: i32| v + 1")]))
+                elif failop == "zip":
+                    items.append(Op(">^>", [B("ev0(\"c.%d.%d.z\"); if act(%d) == 0 { Some(1) } else { None }" % (k, b, fs))], deferred=True))
+                    items.append(Op("|>", [O("|t: (i32, i32)| t.0 + t.1")]))
+                else:
+                    items.append(Op("|>", [O("|v: i32| { ev(\"%d.%d.f\", &v); if act(%d) == 0 { Some(v + 1) } else { None } }" % (b, k, fs))], deferred=True))
+                    items.append(Op("^^>", []))
+                if rich:
+                    # (no `->`, `=>`, `..` in these steps: the failure must come from the Option method alone)
+                    items.append(Op("??", [O("|v: &Option<i32>| { ev(\"%d.%d.q\", v); }" % (b, k))]))
             else:
                 if rich:
                     items.append(Op("<|", [O("lg(\"%d.%d.o\", None)" % (b, k))], deferred=True))
